@@ -1,7 +1,7 @@
 // SPDX-License-Identifier: BSL-1.1 OR Apache-2.0
 use std::{
     collections::HashSet,
-    sync::Arc,
+    sync::{Arc, Mutex, MutexGuard, PoisonError},
     time::{SystemTime, UNIX_EPOCH},
 };
 
@@ -15,21 +15,53 @@ use crate::{
     streaming::{get_int, get_pointers},
 };
 
+/// Serialises every check-then-act sequence on the chunk entries of one blob
+/// store: deduplicating store (exists, then increment or create), reference
+/// count updates, artifact deletion and the collector's "zero references,
+/// then delete". `TensorStore` offers no compare-and-swap, so without this
+/// lock concurrent writers, deleters and GC cycles lose reference count
+/// updates and collect chunks that a just-written artifact references.
+///
+/// One instance is shared by a `BlobStore`, its writers and its collector.
+#[derive(Debug, Default)]
+pub struct ChunkLock(Mutex<()>);
+
+impl ChunkLock {
+    /// Acquire the lock. Not reentrant: a holder must not call a function
+    /// that takes it again.
+    pub(crate) fn lock(&self) -> MutexGuard<'_, ()> {
+        self.0.lock().unwrap_or_else(PoisonError::into_inner)
+    }
+}
+
 /// Background garbage collector for orphaned chunks.
 pub struct GarbageCollector {
     store: TensorStore,
     config: GcConfig,
     shutdown_tx: broadcast::Sender<()>,
+    chunk_lock: Arc<ChunkLock>,
 }
 
 impl GarbageCollector {
     #[must_use]
     pub fn new(store: TensorStore, config: GcConfig) -> Self {
+        Self::with_chunk_lock(store, config, Arc::default())
+    }
+
+    /// Create a collector that shares the chunk lock of the blob store whose
+    /// chunks it collects.
+    #[must_use]
+    pub(crate) fn with_chunk_lock(
+        store: TensorStore,
+        config: GcConfig,
+        chunk_lock: Arc<ChunkLock>,
+    ) -> Self {
         let (shutdown_tx, _) = broadcast::channel(1);
         Self {
             store,
             config,
             shutdown_tx,
+            chunk_lock,
         }
     }
 
@@ -83,6 +115,9 @@ impl GarbageCollector {
         let chunk_keys = self.store.scan("_blob:chunk:");
 
         for chunk_key in chunk_keys.into_iter().take(self.config.batch_size) {
+            // Read, check and delete under the chunk lock: a writer must not
+            // add a reference between the check and the delete.
+            let _guard = self.chunk_lock.lock();
             if let Ok(tensor) = self.store.get(&chunk_key) {
                 let refs = get_int(&tensor, "_refs").unwrap_or(0);
                 let created =
@@ -169,6 +204,9 @@ impl GarbageCollector {
 
 /// Decrement chunk reference count. Used when deleting artifacts.
 ///
+/// The read-modify-write is not atomic by itself: callers that can run
+/// concurrently with other chunk operations must hold the [`ChunkLock`].
+///
 /// # Errors
 ///
 /// Returns an error if the store operation fails.
@@ -185,12 +223,16 @@ pub fn decrement_chunk_refs(store: &TensorStore, chunk_key: &str) -> Result<()> 
     Ok(())
 }
 
-/// Increment chunk reference count. Used for deduplication.
+/// Increment chunk reference count. Used for deduplication. Returns whether
+/// the chunk was present (and its count incremented).
+///
+/// The read-modify-write is not atomic by itself: callers that can run
+/// concurrently with other chunk operations must hold the [`ChunkLock`].
 ///
 /// # Errors
 ///
 /// Returns an error if the store operation fails.
-pub fn increment_chunk_refs(store: &TensorStore, chunk_key: &str) -> Result<()> {
+pub fn increment_chunk_refs(store: &TensorStore, chunk_key: &str) -> Result<bool> {
     if let Ok(mut tensor) = store.get(chunk_key) {
         let refs = get_int(&tensor, "_refs").unwrap_or(0);
         tensor.set(
@@ -198,8 +240,9 @@ pub fn increment_chunk_refs(store: &TensorStore, chunk_key: &str) -> Result<()> 
             tensor_store::TensorValue::Scalar(tensor_store::ScalarValue::Int(refs + 1)),
         );
         store.put(chunk_key, tensor)?;
+        return Ok(true);
     }
-    Ok(())
+    Ok(false)
 }
 
 fn current_timestamp() -> u64 {
